@@ -143,135 +143,3 @@ Proof.
   - apply (l2_arr _ HL2); auto.
 Qed.
 
-Section Step.
-Variable P : params.
-
-Ltac frame_io HL2 :=
-  apply (L2_frame _ _) with (11 := HL2); cbn; try reflexivity; intro; split; reflexivity.
-Ltac frame_wk HL2 me Hw :=
-  apply (L2_frame _ _) with (11 := HL2); cbn; try reflexivity;
-  let j := fresh "j" in intro j; unfold upd; destruct (Nat.eqb_spec j me); [subst j; rewrite Hw|]; split; reflexivity.
-
-Ltac slv := solve [ intuition (eauto; try discriminate; try congruence; try lia) ].
-
-Ltac fwd :=
-  repeat match goal with
-  | H : ?A -> _ |- _ =>
-      match type of A with
-      | Prop => let HA := fresh in
-                assert (HA : A) by (first [ assumption | reflexivity | discriminate | congruence
-                                          | left; first [assumption | reflexivity | congruence]
-                                          | right; first [assumption | reflexivity | congruence | apply app_one_nonnil ] ]);
-                specialize (H HA); clear HA
-      end
-  end.
-
-Ltac lists :=
-  repeat match goal with
-  | H : ?a ++ [?x] = ?a |- _ => exfalso; exact (app_one_neq _ _ _ H)
-  | H : ?a = ?a ++ [?x] |- _ => exfalso; symmetry in H; exact (app_one_neq _ _ _ H)
-  | H : ?l ++ [_] = [] |- _ => exfalso; exact (app_one_nonnil _ _ _ H)
-  | H : ?a ++ [?x] = ?b ++ [?y] |- _ => apply app_one_inj in H; destruct H; subst
-  | |- prefix _ (_ ++ [_]) => apply prefix_app_r
-  | |- hd_error (_ ++ [_]) = Some _ => apply hd_error_app
-  | |- _ ++ [_] <> [] => apply app_one_nonnil
-  end.
-
-(* use the per-worker clauses for the workers at hand *)
-Ltac inst_wk :=
-  repeat match goal with
-  | C : forall j, serving (wpc (?w j)) = true -> _ /\ _, H : serving (wpc (?w ?j)) = true |- _ =>
-      let X := fresh in pose proof (C j H) as X; destruct X; revert H
-  end; intros.
-
-Ltac upd_hyps :=
-  repeat match goal with
-  | H : forall j : nat, ?f (wpc (upd ?w ?me ?x j)) = ?b |- _ =>
-      apply (upd_forall_elim (fun y => f (wpc y) = b)) in H; destruct H
-  end.
-
-Ltac upd_goal me :=
-  try (exists me; rewrite upd_same; reflexivity);
-  try (left; exists me; rewrite upd_same; reflexivity);
-  unfold upd in *;
-  repeat match goal with
-  | |- context [Nat.eqb ?j me] => destruct (Nat.eqb_spec j me); [subst j|]
-  | H : context [Nat.eqb ?j me] |- _ => destruct (Nat.eqb_spec j me); [subst j|]
-  end.
-
-Ltac bool_goal :=
-  try match goal with
-  | |- ?b = false => match type of b with bool => destruct b eqn:?; [exfalso|reflexivity] end
-  end.
-
-Ltac pc_facts2 :=
-  repeat match goal with
-  | H : execd (wpc ?x) = true |- _ =>
-      lazymatch goal with _ : serving (wpc x) = true |- _ => fail | _ => pose proof (execd_serving _ H) end
-  | H : is_svconn (wpc ?x) = true |- _ =>
-      lazymatch goal with _ : serving (wpc x) = true |- _ => fail | _ => pose proof (is_svconn_serving _ H) end
-  | H : is_cb2 (wpc ?x) = true |- _ =>
-      lazymatch goal with _ : serving (wpc x) = true |- _ => fail | _ => pose proof (is_cb2_serving _ H) end
-  | H : io_app ?pc = true |- _ =>
-      lazymatch goal with _ : io_rl pc = true |- _ => fail | _ => pose proof (io_app_rl _ H) end
-  end.
-
-Ltac oth_contra :=
-  repeat match goal with
-  | Hoth : forall j, j <> ?me -> serving (wpc (?w j)) = false, N : ?j <> ?me, H : serving (wpc (?w ?j)) = true |- _ =>
-      rewrite (Hoth j N) in H; discriminate H
-  end.
-
-Ltac fin :=
-  bool_hyps; cbn in *; unfold live in *; cbn in *; lists;
-  try solve [ eauto ];
-  try slv;
-  fwd; inst_wk; lists;
-  try slv;
-  try (match goal with A : arrivals _ = _ |- _ => rewrite A end; rewrite <- ?app_assoc; reflexivity);
-  try (split; [assumption | lists; assumption]);
-  bool_goal; fwd;
-  try slv;
-  pc_facts2; fwd; oth_contra;
-  try slv.
-
-(* last resort for the worker cases: split on the request list *)
-Ltac fin_req :=
-  match goal with
-  | s : shared |- _ =>
-      destruct (requests s) as [|? ?] eqn:?; cbn in *; fwd; inst_wk; lists; subst;
-      rewrite <- ?app_assoc; cbn;
-      try slv
-  end.
-
-Theorem L2_step : forall st c st' l, L0 st -> L1 st -> L2 st -> step P st c = Some (st', l) -> L2 st'.
-Proof.
-  intros st c st' l HL0 HL1 HL2 Hs.
-  destruct c as [e | me e].
-  - step_io Hs; cbn [sh io wk ipc] in *.
-    all: try (frame_io HL2).
-    all: destruct HL2 as [LA LB LC LD LKa LKb LKc LE1 LE2 LE3 LCb LSv]; cbn [sh io wk ipc] in *.
-    all: clear HL0 HL1.
-    all: split; cbn [sh io wk ipc io_app is_rccwf is_wwc]; intros.
-    all: fin.
-  - pose proof (others_not_serving st me HL1) as Hoth.
-    pose proof (not_started_facts st me HL1 HL2) as Hns.
-    pose proof (l1_ownreq _ HL1 me) as Hor.
-    pose proof (lock_ok_wk_io _ _ _ _ (l0_r _ HL0) me) as Hrl.
-    step_wk Hs; cbn [sh io wk ipc] in *.
-    all: try (frame_wk HL2 me Hw).
-    all: destruct HL2 as [LA LB LC LD LKa LKb LKc LE1 LE2 LE3 LCb LSv]; cbn [sh io wk ipc] in *.
-    all: pose proof (LC me) as C_me; pose proof (LE3 me) as E3_me; pose proof (LCb me) as Cb_me; pose proof (LSv me) as Sv_me.
-    all: clear HL0 HL1.
-    all: rewrite Hw in *; cbn [wpc w_cur] in *.
-    all: split; cbn [sh io wk ipc io_app is_rccwf is_wwc]; intros.
-    all: upd_hyps; upd_goal me; cbn [wpc w_cur] in *.
-    all: fin.
-    all: try (destruct Hns as [Hns1 [Hns2 Hns3]]; [reflexivity|reflexivity|congruence|]; rewrite ?Hns1, ?Hns2, ?Hns3 in *).
-    all: fin.
-    all: try fin_req.
-    all: destruct Hns as [Hns1 [Hns2 Hns3]].
-    all: first [ right; eexists; rewrite Hns2; reflexivity
-               | unfold prefix; eexists; rewrite Hns3, Hns1, <- app_assoc; cbn; reflexivity ].
-Qed.
-End Step.
